@@ -25,6 +25,7 @@ import (
 	"sort"
 	"strings"
 	"sync"
+	"sync/atomic"
 	"testing"
 	"time"
 
@@ -72,6 +73,7 @@ type shardFile struct {
 	Labels      map[string]int    `json:"labels"`
 	Samples     []json.RawMessage `json:"samples"`
 	Excluded    int               `json:"excluded"`
+	DistinctBC  int               `json:"distinct_by_construction"`
 	Exhaustive  map[string]bool   `json:"exhaustive,omitempty"`
 	Notes       map[string]any    `json:"notes,omitempty"`
 	Failures    []failRec         `json:"failures"`
@@ -86,6 +88,38 @@ type Recorder struct {
 	lastFlush time.Time
 	nSample   int
 	failSeq   int
+
+	// Lazy journal (pure-function checks with millions of cheap cases): the current case
+	// is kept in memory and written out by a watcher only if it has been executing for
+	// more than 100 ms, which is all a hang needs.  Distinct-by-construction enumerators
+	// count non-trivial cases instead of storing one hash each.
+	lazy     bool
+	noHashes bool
+	cur      atomic.Pointer[[]byte]
+	watch    sync.Once
+}
+
+// Lazy switches the recorder to the in-memory journal (see above).
+func (r *Recorder) Lazy() *Recorder { r.lazy = true; return r }
+
+// DistinctByConstruction: every case the caller yields is distinct, so non-trivial cases
+// are counted, not hashed.
+func (r *Recorder) DistinctByConstruction() *Recorder { r.noHashes = true; return r }
+
+func (r *Recorder) startWatch() {
+	r.watch.Do(func() {
+		go func() {
+			var last *[]byte
+			for {
+				time.Sleep(100 * time.Millisecond)
+				p := r.cur.Load()
+				if p != nil && p == last {
+					_ = os.WriteFile(r.path("current.json"), *p, 0o644)
+				}
+				last = p
+			}
+		}()
+	})
 }
 
 var (
@@ -144,10 +178,22 @@ func (r *Recorder) path(name string) string {
 }
 
 func (r *Recorder) journal(raw []byte) {
+	if r.lazy {
+		r.startWatch()
+		r.cur.Store(&raw)
+		return
+	}
 	_ = os.WriteFile(r.path("current.json"), raw, 0o644)
 }
 
-func (r *Recorder) clearJournal() { _ = os.Remove(r.path("current.json")) }
+func (r *Recorder) clearJournal() {
+	if r.lazy {
+		if r.cur.Swap(nil) != nil {
+			return
+		}
+	}
+	_ = os.Remove(r.path("current.json"))
+}
 
 func hashOf(raw []byte) string {
 	h := sha256.Sum256(raw)
@@ -166,7 +212,14 @@ func (r *Recorder) ok(raw []byte, res Result) {
 	for _, l := range res.Labels {
 		r.sf.Labels[l]++
 	}
-	if res.NonTrivial {
+	if res.NonTrivial && r.noHashes {
+		r.sf.DistinctBC++
+		r.sf.NonTrivial++
+		if len(raw) < 6000 && (r.nSample < 3 || (r.nSample < 8 && r.sf.NonTrivial%9973 == 0)) {
+			r.sf.Samples = append(r.sf.Samples, json.RawMessage(raw))
+			r.nSample++
+		}
+	} else if res.NonTrivial {
 		h := hashOf(raw)
 		if _, dup := r.hashes[h]; !dup {
 			r.hashes[h] = struct{}{}
